@@ -788,6 +788,19 @@ pub fn check_messages(w: &World, chain: &[ChainState], mode: Mode) -> Result<Msg
                     }
                     let f = &fulls[&m];
                     let rec = cl.delivered.get(&idx);
+                    // a client that was removed and invited again starts over with fresh key
+                    // material: what it was first handed while evicted, or after it came back,
+                    // about an epoch of its earlier membership, it cannot (and must not) read
+                    if let Some(r) = rec {
+                        if r.first_state.is_none() || cl.reached_stint.get(base).copied().unwrap_or(0) != r.first_stint {
+                            rep.dont_care += 1;
+                            rep.classes.insert("message-of-an-earlier-membership-stint".into());
+                            continue;
+                        }
+                    } else if cl.reached_stint.get(base).copied().unwrap_or(0) != cl.stint {
+                        rep.dont_care += 1;
+                        continue;
+                    }
                     // windows: don't-care when the receiver was too many epochs ahead
                     if let Some(r) = rec {
                         if let Some(fs) = &r.first_state {
